@@ -1099,6 +1099,7 @@ impl IoUring {
                 ring_entries: parts.cq_ring_entries,
                 entries: NonNull::new_unchecked(parts.cq_entries),
             },
+            reaped: [0; 4],
         })
     }
 
